@@ -91,7 +91,7 @@ func (e *Engine) havocBase(st *State, elem types.Type, base *smt.Term) {
 
 var intrinsicNames = map[string]bool{"vAssume": true, "vAssert": true, "vRequires": true, "vEnsures": true, "vModifies": true,
 	"vNondet": true, "vOld": true, "vForall": true, "vInvariant": true, "vBody": true, "vStep": true, "vCallCount": true,
-	"vCallArg": true, "vSameSlice": true, "vFresh": true, "vSeparate": true, "vJoined": true, "vSame": true, "VSeparate": true, "vDistinctBacking": true}
+	"vCallArg": true, "vSameSlice": true, "vFresh": true, "vSeparate": true, "vJoined": true, "vSame": true, "VSeparate": true, "vDistinctBacking": true, "vHavocRange": true}
 
 func constString(v ssa.Value) string {
 	if c, ok := v.(*ssa.Const); ok && c.Value != nil && c.Value.Kind() == constant.String {
@@ -237,6 +237,20 @@ func (e *Engine) intrinsic(st *State, fn *ssa.Function, name string, args []Valu
 		_, out := e.callValue(st, args[0], nil, args[0].T.Underlying().(*types.Signature), pos)
 		e.paths = saveP
 		return nil, out, true
+	case "vHavocRange":
+		// vHavocRange(s any): the elements s[0:len(s)] take unknown values (models say what they know afterwards)
+		sv := e.unboxAny(st, args[0])
+		elem := sv.T.Underlying().(*types.Slice).Elem()
+		for j, lf := range e.ly.of(elem) {
+			k := heapKey(elem, j)
+			mm := e.memFor(st, elem, j)
+			if lf.Kind == lkPtrMeta && lf.Ptee != nil {
+				continue
+			}
+			st.heap[k] = e.M.node(MemNode{kind: mHavocR, prev: mm, sort: mm.sort, a0: sv.L[0], a1: sv.L[1], n: sv.L[2],
+				uf: e.C.FreshFunc("Hr_"+k, []smt.Sort{bv64, bv64}, lf.Sort)})
+		}
+		return nil, st, true
 	case "vDistinctBacking":
 		// vDistinctBacking(a, b any): two slices (boxed in interfaces) live in different backing arrays
 		x, y := e.unboxAny(st, args[0]), e.unboxAny(st, args[1])
